@@ -45,8 +45,12 @@ first_missed = {  # seeds the checks missed (or reported without a concrete inpu
  'C15-10': 'MISSED by C15 as it stood (splits was never instantiated with attached funds); funds at instantiate on both paths and a conservation monitor from instantiate on, detected since',
  'C18-9': 'MISSED by C18 as it stood (C06 and C08 caught it); old-vs-new discriminating observation probes after every accepted UpdateParams, detected since',
  'C20-10': 'MISSED by C20 as it stood (the world always supplied tree URIs); optional instantiate fields present / absent / empty as a dimension, appearing keys count as changes, detected since',
+ # sixth round
+ 'C06-11': 'MISSED by C06 as it stood (the developer address was always a valid account); developer address forms (incl. strings that fail validation) as a dimension, monitor judges against the configured developer, detected since',
+ 'C10-11': 'MISSED by C10 as it stood (only base->updatable migrations were in the histories); each variant\'s own migrate, repeated, with the recorded version modelled, detected since',
+ 'C20-11': 'MISSED by C20 as it stood (no migration from an end state); end-state life stages before migration, detected since',
 }
-for d in sorted(glob.glob(root + '/C*-[3-9]')) + sorted(glob.glob(root + '/C*-10')):
+for d in sorted(glob.glob(root + '/C*-[3-9]')) + sorted(glob.glob(root + '/C*-1[012]')):
     sid = os.path.basename(d); prop = sid.split('-')[0]
     readme = open(d + '/README.md').read()
     title = readme.splitlines()[0].lstrip('# ').strip()
